@@ -4,8 +4,7 @@
 
   `EG/Props/C15.lean` proves the call-list level (`chaining_cells`: same glyph calls,
   `chaining_next`: same returned position, `chaining_decorations`: the decoration rectangle of the
-  whole is the union of the parts) and lists the pixel-map equality as carried by correspondence
-  only. Here it is derived (helper lemmas: EG/Lemmas/GlueChainPicture.lean, on top of the pixel-map
+  whole is the union of the parts). The pixel-map equality is derived here (helper lemmas: EG/Lemmas/GlueChainPicture.lean, on top of the pixel-map
   lemmas of EG/Lemmas/PMap.lean / Target.lean and the box lemmas of EG/Lemmas/TextLayoutBox.lean):
   the call list of the chained drawing, `glyphs(s1), deco(s1), glyphs(s2), deco(s2)`, and the call
   list of the whole text, `glyphs(s1 ++ s2), deco(s1 ++ s2)`, leave the same colour at EVERY point
